@@ -80,6 +80,7 @@ namespace ratio
     void flaw_created(const flaw &f) override;
 
     void build_timelines();
+    void restore_bounds();
     bool propagate_bounds(const ratio::item &itm, const atom_adaptation::item_bounds &bounds, const smt::lit &reason);
 
     void reset_relevant_predicates();
